@@ -164,6 +164,8 @@ def _resolve_piece(fi, it, node):
     if isinstance(node, ast.Subscript):
         return it.sx(node.value), it.sx(node.slice)
     if isinstance(node, ast.Name):
+        from .common import def_map
+        defs_ = def_map(fi.node)
         for n in ast.walk(fi.node):
             gens = []
             if isinstance(n, (ast.For, ast.AsyncFor)):
@@ -173,6 +175,8 @@ def _resolve_piece(fi, it, node):
             for tgt, itx in gens:
                 z = itx
                 tg = tgt
+                if isinstance(z, ast.Name) and z.id in defs_:
+                    z = defs_[z.id]
                 if isinstance(z, ast.Call) and norm_text(z.func) == 'enumerate' and z.args and isinstance(tgt, ast.Tuple) and len(tgt.elts) == 2:
                     z, tg = z.args[0], tgt.elts[1]
                 if isinstance(z, ast.Call) and norm_text(z.func) == 'zip' and isinstance(tg, ast.Tuple) and len(tg.elts) == len(z.args):
@@ -248,22 +252,27 @@ def check_transitions_split(ctx):
         msg = f'pieces of {src} cut into n_parts' if ok else (
             f'`{role}` receives pieces of `{subject}` instead of `{src}`' if subject != src else f'`{src}` is not cut into n_parts pieces')
         ctx.ob('R3', fi, f'{role}=', True if ok else (False if known_fn else None), msg)
-    ctx.ob('R3', fi, c, len(idxs) == 1, 'all pieces taken at the same index' if len(idxs) == 1 else f'pieces are combined at different indices {sorted(map(str, idxs))}')
+    idxs.discard(None)
+    ctx.ob('R3', fi, c, True if len(idxs) == 1 else (False if len(idxs) > 1 else None),
+           'all pieces taken at the same index' if len(idxs) == 1 else f'pieces are combined at different indices {sorted(map(str, idxs))}')
     # number of parts built
     n_ok = None
     pm = {}
     for n_ in ast.walk(fi.node):
         for ch in ast.iter_child_nodes(n_):
             pm[id(ch)] = n_
+    from .common import def_map, expand
+    defs2 = def_map(fi.node)
     cur = c
     while id(cur) in pm:
         cur = pm[id(cur)]
         if isinstance(cur, ast.For):
-            t = it.sx(cur.iter).replace(' ', '')
+            t = norm_text(expand(cur.iter, defs2)).replace(' ', '') if isinstance(cur.iter, ast.Name) else it.sx(cur.iter).replace(' ', '')
             n_ok = True if t == 'range(n_parts)' or t.startswith('zip(') else None
             break
         if isinstance(cur, (ast.ListComp, ast.GeneratorExp)):
-            t = it.sx(cur.generators[0].iter).replace(' ', '')
+            g0 = cur.generators[0].iter
+            t = norm_text(expand(g0, defs2)).replace(' ', '') if isinstance(g0, ast.Name) else it.sx(g0).replace(' ', '')
             n_ok = True if t == 'range(n_parts)' or t.startswith('zip(') else None
             break
     ctx.ob('R3', fi, 'number of parts', n_ok, 'one part per piece' if n_ok else 'loop over the pieces not recognised')
